@@ -8,14 +8,16 @@ cd "$(dirname "$0")"
 export GOFLAGS=-mod=mod GOPROXY=off GOSUMDB=off GOTOOLCHAIN=local
 VERIF=$(pwd)
 REPO=${VERIF_REPO:-/repo}
-BIN=$VERIF/.bin
-mkdir -p "$BIN" "$VERIF/.build"
+BIN=${VERIF_BIN:-$VERIF/.bin}
+BUILD=${VERIF_BUILD:-$VERIF/.build}
+export VERIF_BUILD=$BUILD
+mkdir -p "$BIN" "$BUILD"
 
 build() { # $1 = output name, rest = extra go build flags
   local out=$1; shift
   local tag
   tag=$(echo "$REPO" | md5sum | cut -c1-8)
-  local mod=$VERIF/.build/go.$tag.mod
+  local mod=$BUILD/go.$tag.mod
   sed "s#=> /repo#=> $REPO#" "$VERIF/mc/go.mod" > "$mod"
   (cd "$VERIF/mc" && go build -modfile="$mod" -tags verif "$@" -o "$BIN/$out" ./cmd/mc) || { echo "ERROR build failed"; exit 2; }
 }
@@ -23,10 +25,10 @@ build() { # $1 = output name, rest = extra go build flags
 build_sched() { # schedule explorer: library rewritten through an overlay generated from $REPO
   local tag
   tag=$(echo "$REPO" | md5sum | cut -c1-8)
-  local mod=$VERIF/.build/go.$tag.mod
+  local mod=$BUILD/go.$tag.mod
   sed "s#=> /repo#=> $REPO#" "$VERIF/mc/go.mod" > "$mod"
   (cd "$VERIF/tools/instr" && go build -o "$BIN/instr" .) || { echo "ERROR build of instr failed"; exit 2; }
-  local ov=$VERIF/.build/overlay/$tag
+  local ov=$BUILD/overlay/$tag
   rm -rf "$ov"; mkdir -p "$ov"
   "$BIN/instr" -repo "$REPO" -out "$ov" -shim "$VERIF/shim/vsched" > "$ov/instr.log" 2>&1 || { cat "$ov/instr.log"; echo "ERROR instrumentation failed"; exit 2; }
   (cd "$VERIF/mc" && go build -modfile="$mod" -tags "verif e3" -overlay "$ov/overlay.json" -o "$BIN/mcs" ./cmd/mcs) || { echo "ERROR build of mcs failed"; exit 2; }
@@ -47,10 +49,10 @@ case "${1:-}" in
     build_sched
     # (c) free-running net: same harness bodies, native build under the race detector
     tag=$(echo "$REPO" | md5sum | cut -c1-8)
-    (cd "$VERIF/mc" && go build -modfile="$VERIF/.build/go.$tag.mod" -race -tags verif -o "$BIN/mcrace" ./cmd/mcrace) || { echo "ERROR build of mcrace failed"; exit 2; }
+    (cd "$VERIF/mc" && go build -modfile="$BUILD/go.$tag.mod" -race -tags verif -o "$BIN/mcrace" ./cmd/mcrace) || { echo "ERROR build of mcrace failed"; exit 2; }
     rounds=150; [ "${2:-quick}" = thorough ] && rounds=3000
     OUTD=${VERIF_OUT:-$VERIF}; mkdir -p "$OUTD/replays/C16"
-    res=$VERIF/.build/race.$tag.json; log=$OUTD/replays/C16/race-detector-report.txt
+    res=$BUILD/race.$tag.json; log=$OUTD/replays/C16/race-detector-report.txt
     rm -f "$res"
     GORACE="halt_on_error=1" timeout 1200 "$BIN/mcrace" $rounds "${VERIF_SEED:-1}" "$res" 2> "$log"; rc=$?
     if [ $rc -eq 66 ] || grep -q "WARNING: DATA RACE" "$log"; then
@@ -76,11 +78,11 @@ case "${1:-}" in
   C19)
     build mc
     tag=$(echo "$REPO" | md5sum | cut -c1-8)
-    (cd "$VERIF/mc" && go build -modfile="$VERIF/.build/go.$tag.mod" -tags verif -o "$BIN/gophersat.$tag" github.com/crillab/gophersat) || { echo "ERROR build of gophersat failed"; exit 2; }
+    (cd "$VERIF/mc" && go build -modfile="$BUILD/go.$tag.mod" -tags verif -o "$BIN/gophersat.$tag" github.com/crillab/gophersat) || { echo "ERROR build of gophersat failed"; exit 2; }
     export VERIF_GOPHERSAT_BIN="$BIN/gophersat.$tag"
-    rm -rf "$VERIF/.build/cli"
+    rm -rf "$BUILD/cli"
     "$BIN/mc" check "$1" "${2:-quick}"; rc=$?
-    rm -rf "$VERIF/.build/cli"
+    rm -rf "$BUILD/cli"
     exit $rc
     ;;
   C*)
